@@ -16,6 +16,7 @@ pub mod c12;
 pub mod c13;
 pub mod c14;
 pub mod c15;
+pub mod c16;
 
 pub fn lookup(id: &str) -> Option<(&'static str, fn(&mut Ctx))> {
     Some(match id {
@@ -34,6 +35,7 @@ pub fn lookup(id: &str) -> Option<(&'static str, fn(&mut Ctx))> {
         "C13" => ("C13", c13::run as fn(&mut Ctx)),
         "C14" => ("C14", c14::run as fn(&mut Ctx)),
         "C15" => ("C15", c15::run as fn(&mut Ctx)),
+        "C16" => ("C16", c16::run as fn(&mut Ctx)),
         _ => return None,
     })
 }
